@@ -22,6 +22,35 @@ def sig(ev, d):
     return "RtB n=%s tag=%s: decode(encode(d)) != d" % (ev.get("number") if ev.get("number") in (1059, 1065, 1230) else "*", ev.get("tag"))
 
 
+def nostd_events(chk):
+    """Builds /verif/probe against the library with default features off (so #![no_std]) and all message features, runs it over a
+    corpus of generator frames and writes one NoStdRt event per frame."""
+    import shutil
+    probe = os.path.join(VERIF, "probe")
+    lock = os.path.join(probe, "Cargo.lock")
+    if not os.path.exists(lock):
+        shutil.copy(os.path.join(REPO, "Cargo.lock"), lock)
+    t = record("corpus", chk.path("nostd-ref.ndjson"), seed=chk.seed + 3, per_type=3 if chk.quick else 40, hex=chk.path("nostd-corpus.hex"))
+    ref = json.loads(open(t).read().splitlines()[0])
+    tdir = os.path.join(WORK, "c01-nostd")
+    env = {"CARGO_TARGET_DIR": tdir, "CARGO_NET_OFFLINE": "true", "RUSTFLAGS": ""}
+    p = sh(["cargo", "build", "--offline", "-q", "--manifest-path", os.path.join(probe, "Cargo.toml"), "--features", "rtcm-rs/all_msgs"], env=env, check=False, timeout=1500)
+    out = chk.path("nostd.ndjson")
+    with open(out, "w") as f:
+        if p.returncode != 0:
+            f.write(json.dumps({"ev": "NoStdRt", "build": "fail", "number": -1, "class": "", "n": -1, "rt": "", "log": "\n".join(l for l in p.stdout.splitlines() if l.startswith("error"))[:600]}) + "\n")
+            return out
+        q = sh([os.path.join(tdir, "debug", "rtcm_probe"), chk.path("nostd-corpus.hex")], check=False, timeout=600)
+        if q.returncode != 0:
+            f.write(json.dumps({"ev": "NoStdRt", "build": "probe-crashed", "number": -1, "class": "", "n": -1, "rt": "", "log": q.stdout[-600:]}) + "\n")
+            return out
+        nums = [r[0] for r in ref["results"]]
+        for i, ln in enumerate(q.stdout.splitlines()):
+            parts = ln.split(" ")
+            f.write(json.dumps({"ev": "NoStdRt", "build": "ok", "number": nums[i] if i < len(nums) else -1, "class": parts[0], "n": int(parts[1]), "rt": parts[3] if len(parts) > 3 else "?"}) + "\n")
+    return out
+
+
 def run(chk):
     q = chk.quick
     chk.add_mc(mc("MC_Builder", "MC_Builder.cfg", workers=4))
@@ -39,6 +68,12 @@ def run(chk):
         report_rejects(chk, rn, lambda ev, d: "[%s] FieldNf %s enc_err=%s rt_err=%s same=%s panic=%s" % (profile, ev.get("id"), ev.get("enc_err"), ev.get("rt_err"), ev.get("p") == ev.get("q"), bool(ev.get("panic"))),
                        lambda ev, d: "[%s] field %s: the pattern written for input k=%s (grid units) is not reproduced by decoding and re-encoding it: %s -> %s %s" % (
                            profile, ev.get("id"), ev.get("k"), ev.get("p"), ev.get("q"), ev.get("panic") or ""))
+    # the same library built without std (C19's probe crate, all message features): decode + re-encode of generator frames
+    nostd_events(chk)
+    rs = tv("Trace_Roundtrip", "Trace_Roundtrip.cfg", chk.path("nostd.ndjson"), shards=4, tag="C01-nostd")
+    chk.add_tv("no_std build", rs)
+    report_rejects(chk, rs, lambda ev, d: "NoStdRt build=%s class=%s rt=%s" % (ev.get("build"), ev.get("class"), ev.get("rt")),
+                   lambda ev, d: "no_std build: a frame of message %s written by the generator does not decode and re-encode to itself (%s, %s) %s" % (ev.get("number"), ev.get("class"), ev.get("rt"), ev.get("log", "")[:200]))
     firsts = set()
     a_ok = b_ok = a_clean_unknown = 0
     for ln, o in r["lines"]:
